@@ -143,6 +143,11 @@ def nexts(I, st, it, fn, line, depth):
                 else:
                     out.append((k2, None, None, s2))
         return out
+    if kind == "range":
+        lo, hi = it[4]
+        if lo[1] >= hi[1]:
+            return [("done", it, None, st)]
+        return [("item", _iter("range", [Const(lo[1] + 1), hi]), lo, st)]
     if kind == "zip":
         ia, ib = it[4]
         out = []
@@ -931,6 +936,30 @@ def m_find(I, st, fn, ce, args, line, depth, dest_ty, may_unwind):
     return out
 
 
+def _range_as_iter(I, st, v):
+    """a `lo..hi` with literal bounds (by value or behind `&mut`) as a model iterator; anything else unchanged"""
+    w = v
+    if w[0] == "ref":
+        try:
+            w = I.load(st, w[1])
+        except Undecided:
+            return v
+    if w[0] == "agg" and w[1] == "adt" and str(w[2]).endswith("::Range") and len(w[4]) == 2 and \
+            all(x[0] == "const" and isinstance(x[1], int) and not isinstance(x[1], bool) for x in w[4]):
+        return _iter("range", [w[4][0], w[4][1]])
+    return v
+
+
+def _with_ranges(f):
+    def g(I, st, fn, ce, args, line, depth, dest_ty, may_unwind):
+        if args:
+            a0 = _range_as_iter(I, st, args[0])
+            if a0 is not args[0]:
+                args = [a0] + list(args[1:])
+        return f(I, st, fn, ce, args, line, depth, dest_ty, may_unwind)
+    return g
+
+
 def install():
     M = MODELS
     M["core::slice::<impl [T]>::iter"] = m_iter(False)
@@ -1024,3 +1053,9 @@ def install():
 
 
 install()
+for _k in ("std::iter::Iterator::any", "std::iter::Iterator::all", "std::iter::Iterator::for_each", "std::iter::Iterator::find",
+           "std::iter::Iterator::position", "std::iter::Iterator::count", "std::iter::Iterator::map", "std::iter::Iterator::filter",
+           "std::iter::Iterator::take_while", "std::iter::Iterator::inspect", "std::iter::Iterator::enumerate",
+           "std::iter::Iterator::zip", "std::iter::Iterator::collect", "std::iter::Iterator::take", "std::iter::Iterator::skip"):
+    if _k in MODELS:
+        MODELS[_k] = _with_ranges(MODELS[_k])
